@@ -100,7 +100,15 @@ def fresh_registry(gen):
 class World:
     """Base class: fresh VLoop + Net; subclasses build the objects under test."""
 
+    _created = 0
+
     def __init__(self):
+        # the cyclic collector is switched off in worker processes (explorer._init_worker); worlds are full of
+        # cycles (loop <-> tasks <-> frames), so collect by hand now and then or long enumerations eat the machine
+        World._created += 1
+        if World._created % 1000 == 0:
+            import gc
+            gc.collect()
         self.loop = vloop.VLoop()
         vloop.install(self.loop)
         self.net = simnet.Net(self.loop)
